@@ -34,7 +34,7 @@ def allSome {α} : List (Option α) → Option (List α)
     | some l => some (a :: l)
 
 /-- the coefficient array `params[0..nparams-1]` -/
-def toVec {α} (ps : List α) : Vector α ps.length := Vector.mk ps.toArray (List.size_toArray ps)
+def toVec {α} (ps : List α) : Vector α ps.length := Vector.mk ps.toArray List.size_toArray
 
 section
 variable {α : Type} [Add α] [Sub α] [Mul α] [OfNat α 0]
